@@ -14,7 +14,7 @@ Every history ends with `end` (drop everything, leak check).
 Families (--tier quick: ~1200 histories, thorough: ~6000 per seed):
   tree      window lifecycles without handlers
   handlers  lifecycles with key/mouse handlers acting on their own window / ancestors (the property's case)
-  foreign   handlers that also close, hide or restack *other* windows (siblings, drag sources)
+  foreign   handlers that close, unref, hide or restack *other* windows (siblings in the middle of the walk, drag sources)
   objects   pens (shared with windows), strings, render buffers, terminal references
   copyout   get_cell_text / get_span with buffers around the exact fit; mock terminal display text
 exhaustive: every order of <= 5 lifecycle operations on a root with two nested children and one pen
@@ -98,10 +98,7 @@ def gen_tree_history(rng, with_handlers, foreign):
                 own = rng.choice(chain_up(w)) if w < nw else 0
                 if rng.random() < 0.6: own = w
                 tgt = rng.randrange(nw) if foreign else own
-                # dropping the last reference of a window that is neither the handler's own nor one of its
-                # ancestors can free the `next` a sibling loop is holding (known finding sibling_next): only the
-                # corpus probes do that
-                if r < 0.40: acts.append(act_token("u", own))
+                if r < 0.40: acts.append(act_token("u", tgt))
                 elif r < 0.60: acts.append(act_token("c", tgt))
                 elif r < 0.68: acts.append(act_token("r", tgt))
                 elif r < 0.80: acts.append(act_token(rng.choice("RFLB"), rng.randrange(nw) if rng.random() < 0.5 else tgt))
@@ -238,7 +235,7 @@ if a.tier == "exhaustive":
     info = {"exhaustive_bound": "all sequences of <=3 (and a seed-selected quarter of the length-4) operations over a 13-letter lifecycle alphabet on root>1>2, 3 sibling of 1, one pen, one self-unref key handler; each followed by flush and end", "histories": nh}
 else:
     scale = 1 if a.tier == "quick" else 5
-    fams = {"tree": 380, "handlers": 380, "foreign": 60, "objects": 220, "copyout": 200}
+    fams = {"tree": 340, "handlers": 320, "foreign": 160, "objects": 220, "copyout": 200}
     if a.families:
         fams = {k: v for k, v in fams.items() if k in a.families.split(",")}
     for fam, n in fams.items():
